@@ -131,10 +131,108 @@ func (en *Engine) execBuiltin(st *State, f *Frame, x *ssa.Call, name string, arg
 		}
 	case "copy":
 		f.env[x] = en.doCopy(st, args[0], args[1], pos)
+	case "append":
+		return en.doAppend(st, f, x, args, pos)
 	default:
 		fail("unsupported builtin %s at %s", name, pos)
 	}
 	return nil
+}
+
+// doAppend models append(s, t...) for slices of scalars: in place when the capacity suffices
+// (the elements behind len(s) are overwritten -- in the caller's memory if s came from the caller),
+// otherwise into a fresh array. The capacity of the fresh array is modelled as exactly the new length.
+func (en *Engine) doAppend(st *State, f *Frame, x *ssa.Call, args []Value, pos string) []*State {
+	s, ok := args[0].(SliceV)
+	if !ok {
+		fail("append to %T at %s", args[0], pos)
+	}
+	if len(args) < 2 {
+		f.env[x] = s
+		return nil
+	}
+	et := x.Type().Underlying().(*types.Slice).Elem()
+	var tLen *Term
+	var tVal Value = args[1]
+	switch t := args[1].(type) {
+	case SliceV:
+		if t.R == nil {
+			tLen = ConstI(0)
+		} else {
+			tLen = t.Len
+		}
+	case StringV:
+		if t.Const != nil {
+			tLen = ConstI(int64(len(*t.Const)))
+		} else {
+			tLen = t.Len
+		}
+	default:
+		fail("append of %T at %s", args[1], pos)
+	}
+	if tLen.IsConst() {
+		if n, _ := tLen.ConstInt(); n == 0 {
+			f.env[x] = s
+			return nil
+		}
+	}
+	sLen := ConstI(0)
+	if s.R != nil {
+		sLen = s.Len
+	}
+	sl, ok1 := sLen.ConstInt()
+	tl, ok2 := tLen.ConstInt()
+	if !ok1 || !ok2 {
+		fail("append with symbolic lengths at %s", pos)
+	}
+	en.externCalls["append: a reallocating append is modelled with capacity == new length"] = true
+	realloc := func(rs *State, rf *Frame) {
+		ns := en.makeSlice(rs, f.fn.Name()+".append", et, ConstI(sl+tl), ConstI(sl+tl))
+		if sl > 0 {
+			w := ns
+			w.Len = ConstI(sl)
+			en.doCopy(rs, w, s, pos)
+		}
+		w := ns
+		w.Off = Add(ns.Off, ConstI(sl))
+		w.Len = ConstI(tl)
+		en.doCopy(rs, w, tVal, pos)
+		rf.env[x] = ns
+	}
+	if s.R == nil {
+		realloc(st, f)
+		return nil
+	}
+	fits := Le(ConstI(sl+tl), s.Cap)
+	inplace := func(is *State, ifr *Frame) {
+		w := s
+		w.Off = Add(s.Off, ConstI(sl))
+		w.Len = ConstI(tl)
+		en.doCopy(is, w, tVal, pos)
+		r := s
+		r.Len = ConstI(sl + tl)
+		ifr.env[x] = r
+	}
+	if fits.IsTrue() || en.intervalHolds(st, fits) {
+		st.addSide(fits, "append fits the capacity")
+		inplace(st, f)
+		return nil
+	}
+	if nf := Not(fits); fits.IsFalse() || en.intervalHolds(st, nf) {
+		st.addSide(nf, "append exceeds the capacity")
+		realloc(st, f)
+		return nil
+	}
+	en.flushSide(st)
+	other := st.clone()
+	st.assume(fits)
+	st.trace = append(st.trace, pos+": append in place")
+	inplace(st, f)
+	other.assume(Not(fits))
+	other.trace = append(other.trace, pos+": append reallocates")
+	realloc(other, other.top())
+	en.paths++
+	return []*State{other}
 }
 
 // doCopy models copy(dst, src) for slices (src may be a string).
